@@ -161,6 +161,10 @@ def mutations(obj, rng):
             out.append((f'{lst}-append', lambda lst=lst: d[lst].append('ZZ' + newname)))
     if isinstance(d.get('aliases'), dict):
         out.append(('aliases-setitem', lambda: d['aliases'].__setitem__('Al' + newname, 'Y')))
+    if 'status' in d['index'] and 'submodels' not in d and n:
+        # a reindex() with fills of its own for the solution records (its result thrown away): the next plain reindex of anything is unaffected
+        out.append(('reindex-with-record-fills', lambda: obj.reindex(list(d['span']) + ['later'], status='S', iterations=0)))
+        out.append(('reindex-plain-then-look', lambda: (lambda r: (str(r.status[-1]), int(r.iterations[-1])) == ('-', -1) or (_ for _ in ()).throw(AssertionError('plain reindex fills')))(obj.reindex(list(d['span']) + ['later']))))
     if 'lags' in d:
         out += [('lags-set', lambda: setattr(obj, 'lags', d['lags'] + 1)), ('leads-set', lambda: setattr(obj, 'leads', d['leads'] + 2))]
     if isinstance(d['span'], list):
